@@ -176,11 +176,11 @@ func replayViolation(repo, hdir string, v *Violation, path string) string {
 	if err != nil {
 		return err.Error()
 	}
+	if len(v.Sched) > 0 || v.Kind == "deadlock" || v.SymOnly {
+		return "unreplayed" // schedules / injected faults are not replayed natively (stated)
+	}
 	if v.Model["_concretization_failed"] != "" {
 		return "model could not be concretised"
-	}
-	if len(v.Sched) > 0 || v.Kind == "deadlock" || v.SymOnly {
-		return "unreplayed" // schedules are not replayed natively (stated)
 	}
 	res := runReplay(bin, v.Harness, v.Model, replayThorough)
 	if res.runErr != "" {
